@@ -185,9 +185,10 @@ class MapLaws(Harness):
                 order.append(lo)
             lo, hi = lo + 1, hi - 1
         order = numpy.array(order)
-        qc2 = numpy.concatenate([numpy.array(gm.vrnt_chrgrp)[order][:1], [99], numpy.array(gm.vrnt_chrgrp)[order][1:]]).astype("int64")
+        # ... with two consecutive markers of an absent chromosome right after a present one
+        qc2 = numpy.concatenate([numpy.array(gm.vrnt_chrgrp)[order][:1], [99, 99], numpy.array(gm.vrnt_chrgrp)[order][1:]]).astype("int64")
         ph = gm.vrnt_phypos
-        pieces = [ph[order][:1], (symnp.box(numpy.array([7])) if isinstance(ph, symnp.SymArray) else numpy.array([7])), ph[order][1:]]
+        pieces = [ph[order][:1], (symnp.box(numpy.array([7, 9])) if isinstance(ph, symnp.SymArray) else numpy.array([7, 9])), ph[order][1:]]
         qp2 = numpy.concatenate(pieces)
         out["inter"] = gm.interp_genpos(qc2, qp2)
         out["inter_order"] = order
@@ -258,10 +259,11 @@ class MapLaws(Harness):
         # interpolation
         order = [int(k) for k in out["inter_order"]]
         res = list(cells(out["inter"]))
-        P.prove(len(res) == n + 1 and is_nan(res[1]), "interleaved-query: absent chromosome missing, one answer per query")
-        if len(res) == n + 1:
+        P.prove(len(res) == n + 2 and is_nan(res[1]) and is_nan(res[2]), "interleaved-query: every marker of an absent chromosome missing, one answer per query",
+                detail="%s" % (res[:3],))
+        if len(res) == n + 2:
             for pos, k in enumerate(order):
-                P.prove(P.eq(res[pos if pos == 0 else pos + 1], cell(gen_o, k)), "interpolation-independent-of-the-order-of-the-queries (interleaved chromosomes)")
+                P.prove(P.eq(res[pos if pos == 0 else pos + 2], cell(gen_o, k)), "interpolation-independent-of-the-order-of-the-queries (interleaved chromosomes)")
         for i in range(n):
             P.prove(P.eq(cell(out["own"], i), cell(gen_o, i)), "interpolation-at-own-markers-returns-stored-positions")
             P.prove(P.eq(cell(out["gm2gen"], i), cell(gen_o, i)), "interp_gmap-at-own-markers-reproduces-the-map")
